@@ -22,6 +22,11 @@ complete and the retort it returns must behave exactly as one derived single-thr
 first requests on the origin, which may have been used before (`warm`).  For this family the scheduler also yields at
 every statement that touches the contents of a shared cache (scheduler.py, `shared` points) and, at statement
 granularity, at every line the cloning code executes.
+Statement-level preemption everywhere (generated family `wid:...`, see WIDE_*): on a retort that has been used for
+OTHER types before, one thread is preempted in front of every line of every function of every module that can hold
+state shared by the threads of one retort (the `retort` package + the modules of everything reachable from a used
+retort; discovered, not listed) while another runs a complete first request / a call through an obtained loader.
+These points have no counterpart in the model: direct oracle only, counted in the evidence.
 """
 
 import linecache
@@ -113,7 +118,15 @@ RULE = ("a case is one schedule of 2-3 real threads racing on the first get_load
         "over a cache yields per iteration); quick: ALL schedules with <= 1 preemption for the members in seed order "
         "within 4.5 s + 1.5 s of random schedules at statement granularity in which every line executed by the cloning "
         "code is a preemption point; thorough: 25 s + 9 s of <= 2 sampled with 2-3 threads + 11 s; members also in the "
-        "random / facade / malformed / statement-granularity stages (3 in 20). A case is non-trivial when at least two threads were inside the creation "
+        "random / facade / malformed / statement-granularity stages (3 in 20). Generated family 3 (oracle only, no model "
+        "counterpart): on a retort used single-threaded for other types before (0-2 requests; root types int, str, "
+        "List[int], Optional[int] and the models), one thread is preempted in front of every line event of every "
+        "function of the discovered modules that can hold shared state (retort package: first 3 executions of a line; "
+        "modules of every object reachable from a used retort: first execution), the other runs its complete first "
+        "request + call, or only a call through a loader obtained before, in one piece; races on the same type, on a "
+        "type the other requests below its root, on unrelated types; quick: ALL schedules with <= 1 preemption for the "
+        "same-scalar member (~220), 2 s slices in seed order for the members with ~1000 points, 2.6 s of <= 2 sampled "
+        "on random members; thorough: 70 s. A case is non-trivial when at least two threads were inside the creation "
         "code at the same time (their actions interleave before the first loader-cache store)")
 ASSUMPTIONS = [
     "GIL atomicity of a single dict lookup, dict store and attribute store (CPython 3.12 with the GIL; "
@@ -130,6 +143,9 @@ ASSUMPTIONS = [
     "operation; statements that touch a shared cache are recognised syntactically (attribute name, local alias, "
     "string constant naming the attribute) - an access through a helper that receives the dict as a parameter is "
     "only met at statement granularity (wide tracing of the cloning code)",
+    "statement-level preemption of the family `wid:` is bounded: the first 3 executions of a line in the retort "
+    "package, the first in provider-level modules; <= 1 preemption exhaustively only for scalar requests in the quick "
+    "tier; these preemption points are outside the Lean model (direct oracle only)",
     "ConcurrentCounter's critical section is one atomic action of the model (it touches only the counter and "
     "cannot block); the harness still preempts inside it and treats the lock as a lock",
 ]
@@ -237,6 +253,9 @@ UNLOADABLE_LEAVES = {"Unloadable": Unloadable, "Opaque": Opaque}
 _NS = {c.__name__: c for c in (Node, Chain, MA, MB, Tree, Sub, Pair, Single, Holder, Tri, Twin, Half, RecBad, OptBad,
                                 Opaque)}
 ROOT_TYPES = {**_NS, "Unloadable": Unloadable}       # root types of generated scenarios by `type_name` (replay)
+# scalars and containers of scalars as ROOT types (family `wid:`; oracle only: the transition system of Threads.lean
+# has no program for an `int` dumper or a `str` loader - `Universe.ty` refuses them, the scenario is then not modelled)
+ROOT_TYPES.update({"int": int, "str": str, "List[int]": List[int], "Optional[int]": Optional[int]})
 
 
 def is_unloadable_leaf(tp) -> bool:
@@ -272,6 +291,8 @@ def type_name(tp) -> str:
             return name
     if tp is int:
         return "int"
+    if tp is str:
+        return "str"
     origin = get_origin(tp)
     if origin is Union:
         return f"Optional[{type_name(_resolve(tp).__args__[0])}]"
@@ -387,6 +408,8 @@ def gen_data(tp, depth: int, direction: str):
     tp = _resolve(tp)
     if tp is int or is_unloadable_leaf(tp):
         return 7            # (an unloadable leaf never gets as far as looking at data)
+    if tp is str:
+        return "s" * (depth + 1)
     if is_dataclass(tp):
         vals = {n: gen_data(t, depth, direction) for n, t in field_types(tp)}
         return vals if direction == "load" else tp(**vals)
@@ -498,6 +521,9 @@ def scenario_by_name(name: str, threads_hint=None):
     drv = derive_from_name(name)
     if drv is not None:
         return derive_scenario(*drv)
+    wid = wide_from_name(name)
+    if wid is not None:
+        return wide_scenario(*wid)
     threads = threads_from_name(name)
     if threads is None and threads_hint:
         try:
@@ -652,6 +678,96 @@ def derive_scenario(warm, threads, vias) -> "Scenario":
 
 
 # ---------------------------------------------------------------------------
+# generated scenarios: statement-level preemption EVERYWHERE in the code that holds state shared by the threads of one
+# retort, on a retort that has been used for OTHER types before
+# ---------------------------------------------------------------------------
+# The yield points of the scenarios above are the statements of TODAY's lookup / caching code (function name + AST
+# shape).  A new piece of shared mutable state - a memo in the router, in a provider, in the retort - that is read and
+# written in more than one statement is invisible to them.  A member of this family is
+#     wid:warm(<requests>)|*<request>|<request>|=<request>
+# `*` = the thread is preempted at statement level: every line event of every function of every module that defines
+# the class of an object reachable from a used retort, plus the whole `retort` package (`Real.wide_files`: found by
+# walking the object graph and listing the directory, not by naming functions), is a preemption point (bounded
+# unrolling per line); a thread without a mark runs its complete first request + call without being preempted inside
+# the library; `=` = the thread obtained its loader before the race (single-threaded) and only CALLS it during the
+# race.  `warm` = requests made single-threaded beforehand, so that whatever the retort remembers about "the last
+# request" is about another type when the race starts.  These preemption points have no counterpart in Threads.lean:
+# direct oracle only (sequential result of every call, of the later calls through the loaders obtained during the race,
+# and of the types used before), counted in the evidence (`wide_preemption_sites`).
+WIDE_SCALARS = [("load", int, 0), ("load", str, 0), ("dump", int, 0), ("dump", str, 0)]
+WIDE_MODELS = [("load", Sub, 0), ("load", Twin, 0), ("load", Pair, 0), ("load", Node, 1), ("load", Chain, 1),
+               ("dump", Tree, 1), ("load", List[int], 1), ("load", Optional[int], 1)]
+# (request, a request for something the first one asks for below its root)
+WIDE_NESTED = [(("load", Sub, 0), ("load", int, 0)), (("load", Pair, 0), ("load", Sub, 0)),
+               (("load", List[int], 1), ("load", int, 0)), (("load", Node, 1), ("load", int, 0))]
+
+
+def wide_name(warm, threads, roles) -> str:
+    return ("wid:warm(" + ",".join(request_name(r) for r in warm) + ")|"
+            + "|".join({"wide": "*", "call": "=", "plain": ""}[ro] + request_name(r) for r, ro in zip(threads, roles)))
+
+
+def wide_from_name(name: str):
+    """inverse of `wide_name`: (warm, threads, roles) or None"""
+    if not name.startswith("wid:warm("):
+        return None
+    head, _, rest = name[len("wid:warm("):].partition(")|")
+    warm = [_request_from_name(p) for p in head.split(",") if p]
+    threads, roles = [], []
+    for part in rest.split("|"):
+        role = {"*": "wide", "=": "call"}.get(part[:1], "plain")
+        threads.append(_request_from_name(part[1:] if role != "plain" else part))
+        roles.append(role)
+    if not threads or None in warm or None in threads:
+        return None
+    return warm, threads, roles
+
+
+def wide_scenario(warm, threads, roles) -> "Scenario":
+    return Scenario(wide_name(warm, threads, roles), threads, warm=warm, roles=roles)
+
+
+def wide_cases(rng):
+    """the systematic part of the family, in seed order; cheap members (scalars) first within every round.
+    Every round has: a race on the SAME type on a retort last used for another one (scalar and model), a race on
+    DIFFERENT types where the second is requested inside the first, unrelated types, and a call through a loader
+    obtained before the race."""
+    out = []
+    for _rnd in range(8):
+        a, b = rng.sample(WIDE_SCALARS[:2], 2)
+        out.append(([b], [a, a], ["wide", "plain"]))                                  # same scalar, other scalar before
+        m = rng.choice(WIDE_MODELS)
+        w = rng.choice([r for r in WIDE_SCALARS + WIDE_MODELS if r[1] is not m[1]])
+        out.append(([w], [m, m], ["wide", "plain"]))                                  # same model / container
+        outer, inner = rng.choice(WIDE_NESTED)
+        w = rng.choice([r for r in WIDE_SCALARS if r[1] is not inner[1]])
+        out.append(([w], [outer, inner], ["wide", "plain"]))                          # the inner type of the other
+        x, y = rng.sample(WIDE_SCALARS + WIDE_MODELS, 2)
+        out.append(([rng.choice(WIDE_SCALARS)], [x, y], ["wide", "plain"]))           # any two
+        m2 = rng.choice(WIDE_MODELS + WIDE_SCALARS)
+        t = rng.choice([r for r in WIDE_SCALARS + WIDE_MODELS if r != m2])
+        out.append(([m2], [t, m2], ["wide", "call"]))                                 # a call through an obtained loader
+    return out
+
+
+def wide_random(rng):
+    """a random member: 2-3 threads, 1-2 of them preempted at statement level, 0-2 earlier requests"""
+    pool = WIDE_SCALARS + WIDE_MODELS
+    n = rng.choice([2, 2, 3])
+    warm = rng.sample(pool, rng.choice([0, 1, 1, 2]))
+    threads, roles = [], []
+    first = rng.choice(pool)
+    for i in range(n):
+        r = rng.random()
+        req = first if (i > 0 and r < 0.5) else rng.choice(pool)
+        threads.append(req)
+        roles.append("wide" if i == 0 or rng.random() < 0.4 else "plain")
+    if warm and rng.random() < 0.3:
+        threads[-1], roles[-1] = warm[0], "call"
+    return warm, threads, roles
+
+
+# ---------------------------------------------------------------------------
 # real side
 # ---------------------------------------------------------------------------
 
@@ -664,6 +780,15 @@ class Real:
         self.table = S.PointTable(core.REPO / "src", shared_attrs=self.shared_attrs)
         self.mode = "byLoc" if FuncWrapper(("probe",)) == FuncWrapper(("probe",)) else "byId"
         self._expected: dict = {}
+        # where a thread of the family `wid:` is preempted at every statement: the `retort` package + the facade (3
+        # executions of a line), the modules of everything else a used retort holds on to (providers, request
+        # checkers, ...: 1 execution of a line)
+        core_files, reach_files = discover_shared_modules(Retort, core.REPO / "src")
+        self.table.add_wide_files(reach_files, 1)
+        self.table.add_wide_files([f for f in self.table.files if self.table.wide_ok(f)], S.WIDE_UNROLL)
+        self.table.add_wide_files(core_files, S.WIDE_UNROLL)
+        self.wide_files = {str(Path(f).relative_to((core.REPO / "src").resolve())): n
+                           for f, n in sorted(self.table.wide_files.items())}
 
     def expected(self, direction, tp, depth, via=None):
         """what a fresh retort (or the retort derived from a fresh one by `via`) returns single-threaded (computed
@@ -706,6 +831,66 @@ def discover_shared_containers(Retort) -> set:
         return set()
 
 
+def discover_shared_modules(Retort, src_root):
+    """(files of the package that defines the retort's own machinery, files that define the class of any object
+    reachable from a retort that has been used) - the code that can hold state shared between the threads of one
+    retort.  Found by listing the directory of the module of `SearchingRetort`'s base classes and by walking the object
+    graph (attributes, slots, containers, closures, bound methods), never by naming a function."""
+    import sys
+    root = str((Path(src_root) / "adaptix").resolve())
+    core_files, reach = set(), set()
+    try:
+        for cls in Retort.__mro__:
+            f = getattr(sys.modules.get(cls.__module__), "__file__", None)
+            if f and str(Path(f).resolve()).startswith(root):
+                reach.add(str(Path(f).resolve()))
+                if Path(f).parent.name == "retort":
+                    core_files.update(str(p.resolve()) for p in Path(f).parent.glob("*.py") if p.name != "__init__.py")
+        r = Retort()
+        r.load({"x": 1}, Sub)
+        r.dump(Tree([]), Tree)
+        seen, stack, n = set(), [(r, 0)], 0
+        while stack and n < 100000:
+            o, d = stack.pop()
+            if id(o) in seen or d > 8 or isinstance(o, (str, bytes, int, float, type, type(None))):
+                continue
+            seen.add(id(o))
+            n += 1
+            f = getattr(sys.modules.get(getattr(type(o), "__module__", None)), "__file__", None)
+            if f and str(Path(f).resolve()).startswith(root):
+                reach.add(str(Path(f).resolve()))
+            kids: list = []
+            if isinstance(o, dict):
+                kids = list(o.keys()) + list(o.values())
+            elif isinstance(o, (list, tuple, set, frozenset)):
+                kids = list(o)
+            else:
+                try:
+                    kids = list(vars(o).values())
+                except TypeError:
+                    pass
+                for c in type(o).__mro__:
+                    slots = getattr(c, "__slots__", ()) or ()
+                    for sl in ([slots] if isinstance(slots, str) else slots):
+                        try:
+                            kids.append(getattr(o, sl))
+                        except Exception:  # noqa: BLE001
+                            pass
+                for cell in getattr(o, "__closure__", None) or ():
+                    try:
+                        kids.append(cell.cell_contents)
+                    except ValueError:
+                        pass
+                if hasattr(o, "__self__"):
+                    kids.append(o.__self__)
+                if type(o).__name__ == "partial":
+                    kids += [o.func, *o.args, *o.keywords.values()]
+            stack.extend((k, d + 1) for k in kids)
+    except Exception:  # noqa: BLE001  (a tree under test may fail here; the oracle will say so)
+        pass
+    return core_files, reach - core_files
+
+
 def real_fails(tp) -> bool:
     """the request for `tp` legitimately fails: `tp` is, or contains below models / Optional / list, an unloadable leaf"""
     seen = set()
@@ -740,8 +925,10 @@ def _loc_key(loc) -> tuple:
 
 
 class Scenario:
-    def __init__(self, name: str, threads=None, vias=None, warm=()):
+    def __init__(self, name: str, threads=None, vias=None, warm=(), roles=None):
         self.name = name
+        self.roles = list(roles) if roles else None                        # family `wid:` (see WIDE_*)
+        self.wide = bool(roles)
         self.threads = threads if threads is not None else SCENARIOS[name]
         self.vias = list(vias) if vias else [None] * len(self.threads)     # derivation of the thread's own retort
         self.warm = list(warm)                                             # requests made on the origin beforehand
@@ -752,6 +939,8 @@ class Scenario:
         try:
             if self.derive:
                 raise InfraError("the transition system has ONE retort: derived retorts are outside the model")
+            if self.wide:
+                raise InfraError("statement-level preemption points have no counterpart in the transition system")
             self.tys = [self.uni.ty(d, tp) for d, tp, _ in self.threads]
             self.modelled = True
         except InfraError:
@@ -764,6 +953,8 @@ class Scenario:
         """evidence bucket: the named scenarios are their own family, the generated ones are grouped by what fails"""
         if self.derive:
             return "derive"
+        if self.wide:
+            return "wide"
         if not any(self.failing):
             return self.name
         leaf = all(is_unloadable_leaf(tp) for (_, tp, _), f in zip(self.threads, self.failing) if f)
@@ -876,6 +1067,19 @@ class Outcome:
                     if ("value", got1) != exp or ("value", got2) != exp:
                         self.problems.append(("later-call:wrong-result",
                                               f"loader obtained by thread {tid} returns a wrong result later"))
+            if sc.wide:
+                # what the retort was used for BEFORE the race still gives the sequential result after it
+                for d, tp, depth in sc.warm:
+                    exp = real.expected(d, tp, depth)
+                    try:
+                        data = gen_data(tp, depth, d)
+                        got = ("value", retort.load(data, tp) if d == "load" else retort.dump(data, tp))
+                    except Exception as e:  # noqa: BLE001
+                        got = ("raises", classify_exc(e))
+                    if got != exp:
+                        self.problems.append(("later-call:type-used-before-the-race",
+                                              f"after the race the retort gives {got!r} for {d} {type_name(tp)} "
+                                              f"(used before the race), single-threaded {exp!r}"))
             # generated file names are unique per generated closure (ConcurrentCounter)
             names: dict[str, int] = {}
             for obj in run.namer._keep:
@@ -915,11 +1119,21 @@ def cache_sizes(retort, attrs) -> int:
     return n
 
 
-def thread_fn(real: Real, origin, direction, tp, depth, loaders: list, facade: bool, via=None, clones=None):
+def thread_fn(real: Real, origin, direction, tp, depth, loaders: list, facade: bool, via=None, clones=None,
+              role=None, preloaded=None):
     data = via_data(via, gen_data(tp, depth, direction), direction)
 
     def fn(run: S.Run, tid: int):
         retort = origin
+        if role == "wide":
+            run.wide(True)          # every line of the discovered modules is a preemption point of this thread
+        elif role in ("plain", "call"):
+            run.atomic()            # runs its request / call in one piece (parks only where it takes a lock)
+        if role == "call":
+            # the loader was obtained before the race; the thread only calls through it
+            loaders[tid] = preloaded
+            run.point("call", lambda: [type_name(tp), depth])
+            return preloaded(data)
         if via is not None:
             # the thread derives its own retort from the shared one and works with that (two harness-level actions
             # around the call: what other threads do in between happens INSIDE `replace` / `extend`)
@@ -978,11 +1192,29 @@ def execute(real: Real, sc: Scenario, chooser, mode="points", facade=False, sche
             retort.load(data, tp) if d == "load" else retort.dump(data, tp)
         except Exception as e:  # noqa: BLE001
             warm_exc = e
+    roles = sc.roles or [None] * len(sc.threads)
+    pre = [None] * len(sc.threads)
+    own_monitor = sc.wide and not S.WideMonitor.active and S.WideMonitor.start(real.table)
+    for i, ((d, tp, depth), role) in enumerate(zip(sc.threads, roles)):
+        if role == "call":
+            try:
+                pre[i] = retort.get_loader(tp) if d == "load" else retort.get_dumper(tp)
+            except Exception as e:  # noqa: BLE001
+                warm_exc = e
+                pre[i] = _raiser(e)
     run = S.Run(real.table, sc.namer(), mode=mode, step_timeout=10.0, sched_kinds=sched_kinds,
-                shared_points=sc.derive)
-    run.execute([thread_fn(real, retort, d, tp, depth, loaders, facade, via, clones)
-                 for (d, tp, depth), via in zip(sc.threads, sc.vias)], chooser)
+                shared_points=sc.derive, wide_all=sc.wide)
+    run.execute([thread_fn(real, retort, d, tp, depth, loaders, facade, via, clones, role, pre[i])
+                 for i, ((d, tp, depth), via, role) in enumerate(zip(sc.threads, sc.vias, roles))], chooser)
+    if own_monitor:
+        S.WideMonitor.stop()
     return Outcome(sc, run, real, loaders, retort, clones, warm_exc)
+
+
+def _raiser(e):
+    def fn(_data):
+        raise e
+    return fn
 
 
 # ---------------------------------------------------------------------------
@@ -1219,7 +1451,9 @@ def oracle(ctx: Ctx, sc: Scenario, oc: Outcome, mode: str, facade: bool):
                  {"scenario": sc.name, "mode": mode, "facade": facade, "schedule": oc.run.schedule,
                   "threads": [[d, type_name(tp), depth] for d, tp, depth in sc.threads],
                   **({"vias": sc.vias, "warm": [[d, type_name(tp), depth] for d, tp, depth in sc.warm]}
-                     if sc.derive else {})})
+                     if sc.derive else {}),
+                  **({"roles": sc.roles, "warm": [[d, type_name(tp), depth] for d, tp, depth in sc.warm],
+                      "preempted_at": preempted_at(oc)} if sc.wide else {})})
 
 
 class Batch:
@@ -1419,6 +1653,80 @@ def run_derive(ctx: Ctx, real: Real, batch: Batch, thorough: bool, deadline: flo
     return done
 
 
+def preempted_at(oc: Outcome) -> list:
+    """the statements (file:function+relative line) in front of which a thread was switched away from"""
+    return [f"t{d['cur']}@{d['preempted_at']}" for d in oc.run.decisions if "preempted_at" in d]
+
+
+def run_wide(ctx: Ctx, real: Real, thorough: bool, deadline: float) -> dict:
+    """family `wid:`: ALL schedules with <= 1 preemption of the statement-level thread(s) - every preemption point x
+    the other thread running its complete first request + call (or its call through an obtained loader) - for the
+    systematic members in seed order; then pairs of preemptions (<= 2, sampled in random order) on random members.
+    Direct oracle only; the sites at which a thread was parked are counted."""
+    import random
+    done: dict = {}
+    sites: dict = ctx.extra.setdefault("wide_preemption_sites", {})
+    t0 = time.time()
+    t_one = t0 + (deadline - t0) * 0.8
+    ctx.extra["wide_line_events"] = "sys.monitoring" if S.WideMonitor.start(real.table) else "sys.settrace"
+    try:
+        return _run_wide(ctx, real, thorough, deadline, done, sites, t_one)
+    finally:
+        S.WideMonitor.stop()
+
+
+def _run_wide(ctx, real, thorough, deadline, done, sites, t_one):
+    import random
+
+    def ex_for(sc):
+        def ex(overrides):
+            return execute(real, sc, S.chooser_from_overrides(overrides), mode="lines")
+        return ex
+
+    def account(sc, oc, how):
+        note(ctx, sc, oc, how)
+        oracle(ctx, sc, oc, "lines", False)
+        for k, v in oc.run.sites.items():
+            sites[k] = sites.get(k, 0) + v
+        ctx.dist["wide:runs"] += 1
+        ctx.dist["wide:preemptions-at-points-without-model-counterpart"] += sum(
+            1 for dcs in oc.run.decisions if "preempted_at" in dcs and ":" in str(dcs["preempted_at"]))
+        if len({tp for _, tp, _ in sc.threads}) < len(sc.threads):
+            ctx.dist["wide:race-on-the-same-type"] += 1
+        else:
+            ctx.dist["wide:race-on-different-types"] += 1
+        if "call" in sc.roles:
+            ctx.dist["wide:call-through-a-loader-obtained-before"] += 1
+
+    for warm, threads, roles in wide_cases(random.Random(f"{ctx.pid}:wide:{ctx.seed}")):
+        if time.time() > t_one and done:
+            break
+        sc = wide_scenario(warm, threads, roles)
+        if sc.name in done:
+            continue
+        # a scalar request has ~200 preemption points (explored completely), a model ~1000 (a time slice, in an order
+        # drawn from the seed and the member)
+        scalar = all(tp in (int, str) for (_, tp, _), ro in zip(threads, roles) if ro == "wide")
+        dl = t_one if scalar else min(t_one, time.time() + (12 if thorough else 2.0))
+        if not done:
+            dl = time.time() + 40       # the first member (a race on one scalar type) is always explored completely
+        n = 0
+        for _ov, oc in explore_outcomes(ex_for(sc), 1, dl, None if scalar else
+                                        random.Random(f"{ctx.pid}:wide:{ctx.seed}:{sc.name}")):
+            n += 1
+            account(sc, oc, "pre1")
+        done[sc.name] = {"schedules_le1": n, "complete": time.time() < dl}
+    n2 = 0
+    while time.time() < deadline:
+        sc = wide_scenario(*wide_random(ctx.rng))
+        for _ov, oc in explore_outcomes(ex_for(sc), 2, min(deadline, time.time() + (6 if thorough else 1.0)), ctx.rng):
+            n2 += 1
+            account(sc, oc, "pre2")
+    done["(<= 2 preemptions, sampled)"] = {"runs": n2}
+    ctx.extra["wide_files"] = real.wide_files
+    return done
+
+
 def run(ctx: Ctx):
     real = Real()
     ctx.extra["funcwrapper_equality"] = real.mode
@@ -1434,7 +1742,7 @@ def run(ctx: Ctx):
             drv = None
     batch = Batch(ctx, real, drv)
     thorough = ctx.tier == "thorough"
-    t_end = time.time() + ctx.budget(66, 525)
+    t_end = time.time() + ctx.budget(79, 595)
     stage_t = {"start": time.time()}
 
     def stage(name):
@@ -1491,6 +1799,11 @@ def run(ctx: Ctx):
     ctx.extra["shared_access_statements"] = real.table.shared_statements
     ctx.extra["derive_scenarios"] = run_derive(ctx, real, batch, thorough, min(t_end, time.time() + ctx.budget(6, 45)))
     stage("1c derive family")
+    # 1d. statement-level preemption in every module that can hold state shared by the threads of one retort, on a
+    #     retort used for other types before (generated family `wid:`, see WIDE_*): direct oracle only
+    #     (a slice of its own, not cut by `t_end`: on a loaded machine the exhaustive stage 1 uses up the common budget)
+    ctx.extra["wide_scenarios"] = run_wide(ctx, real, thorough, time.time() + ctx.budget(13, 70))
+    stage("1d statement level, whole shared code")
     # 2. <= 2 preemptions: exhaustive for QUICK_FULL2 (thorough: every scenario not in THOROUGH_SLICED), otherwise
     #    a time slice in randomised order
     for name in sorted(names, key=lambda n: n not in QUICK_FULL2):
@@ -1577,6 +1890,20 @@ def search(ctx: Ctx):
                                                          ctx.rng.choice([0.0, 0.01])), mode="lines")
             note(ctx, sc, oc, "search-lines-wide")
             oracle(ctx, sc, oc, "lines", False)
+    import random
+    t_wide = min(deadline, time.time() + ctx.budget(40, 120))
+    for case in wide_cases(random.Random(f"{ctx.pid}:wide:{ctx.seed}")):
+        if ctx.failures or time.time() > t_wide:
+            break
+        sc = wide_scenario(*case)
+
+        def exw(overrides, sc=sc):
+            return execute(real, sc, S.chooser_from_overrides(overrides), mode="lines")
+        for _ov, oc in explore_outcomes(exw, 1, min(t_wide, time.time() + 10), None):
+            note(ctx, sc, oc, "search-wide")
+            oracle(ctx, sc, oc, "lines", False)
+            if ctx.failures:
+                break
     todo = list(SCENARIOS) + derived
     for name in todo + [mixed_name(t) for t in pairs[:12]]:
         if ctx.failures or time.time() > deadline:
